@@ -555,6 +555,8 @@ def group_instantiate_class(group, cfg):
         value = {}
         parent = cfg
         key = group.dest
+    if isinstance(value, group.group_class):
+        return  # already an instance, e.g. set by a link applied on instantiation
     instantiator_fn = get_class_instantiator()
     parent[key] = instantiator_fn(group.group_class, **value)
 
